@@ -1,0 +1,54 @@
+//go:build verif
+
+// Contracts for package controller. This file is compiled only with
+// -tags verif and contains nothing but //@ specification comments; it adds no
+// code. It is read by /verif/engine (govc).
+
+package controller
+
+//@ import v1 "k8s.io/api/core/v1"
+//@ import k8s "github.com/atlassian/escalator/pkg/k8s"
+
+//@ const MaxInt64 = 9223372036854775807
+//@ const MinInt64 = 0 - 9223372036854775808
+//@ spec sat64(x int) int = min(max(x, MinInt64), MaxInt64)
+
+// -- the clock: every reading is >= the previous one (both time packages).
+//@ ghost clock int
+
+//@ assume func time.Now() (t)
+//@   modifies clock
+//@   ensures clock >= old(clock) && t == clock
+//@ assume func time.Since(t) (d)
+//@   modifies clock
+//@   ensures clock >= old(clock) && d == sat64(clock - t)
+
+// ---------------------------------------------------------------- scale_lock.go
+
+//@ func (*scaleLock).locked(l) (r)
+//@   requires l != nil
+//@   modifies l.isLocked, l.requestedNodes, clock
+//@   ensures clock >= old(clock)
+//@   ensures [C02] sat64(old(clock) - l.lockTime) >= l.minimumLockDuration ==> !r && !l.isLocked
+//@   ensures [C02] r ==> sat64(old(clock) - l.lockTime) < l.minimumLockDuration
+//@   ensures !r ==> !l.isLocked
+//@   ensures r ==> l.isLocked == old(l.isLocked) && l.requestedNodes == old(l.requestedNodes)
+
+//@ func (*scaleLock).unlock(l)
+//@   requires l != nil
+//@   modifies l.isLocked, l.requestedNodes, clock
+//@   ensures clock >= old(clock)
+//@   ensures !l.isLocked
+//@   ensures old(l.isLocked) ==> l.requestedNodes == 0
+//@   ensures !old(l.isLocked) ==> l.requestedNodes == old(l.requestedNodes)
+
+//@ func (*scaleLock).lock(l, nodes)
+//@   requires l != nil
+//@   modifies l.isLocked, l.requestedNodes, l.lockTime, clock
+//@   ensures [C02] l.isLocked && l.requestedNodes == nodes && l.lockTime == clock && clock >= old(clock)
+
+// ---------------------------------------------------------------- scale_up.go
+
+//@ func (*Controller).calculateNodesToAdd(c, nodesToAdd, TargetSize, MaxNodes) (r)
+//@   ensures [C04] TargetSize + nodesToAdd > MaxNodes ==> r == MaxNodes - TargetSize
+//@   ensures [C04] TargetSize + nodesToAdd <= MaxNodes ==> r == nodesToAdd
